@@ -97,6 +97,7 @@ def siblings(prog, rep):
             n += 1
         if len(fs) == 2:
             _agree(rep, "E3.s", ty.rsplit("::", 1)[-1], fs["strict"], fs["lazy"])
+    e3.context_inheritance(prog, rep)
     return n
 
 
@@ -204,6 +205,8 @@ def run(prog, rep):
     C04.forcing_window(prog, rep)      # lazy-only failure (spurious recursion error) where strict succeeds
     C04.strict_scoped_writes(prog, rep)  # strict-only success (a definition that lazy forcing reports as a duplicate)
     regex_capture_lookup(prog, rep)
+    from ..engines import e5_writers as e5
+    e5.mutability_flags(prog, rep)
     # panic where the other mode has an error: no undischarged panic site in the lazy interpreter
     rep.rule("E1.a", e1_panic.RULES["E1.a"] + " (restricted to execution/lazy*: a panic where strict reports an error)")
     sites, per_rule, ctx = e1_panic.run_e1a(prog, rep, fn_filter=lambda f: f.file.startswith("src/execution/lazy"))
